@@ -1,8 +1,130 @@
-import Rangers.Model.Miner
+import Rangers.Proofs.MinerToy
+/-!
+# C20 — miner registry and stake accounting agree with the applied miner transactions
+
+Theorems about `Rangers.Miner` (Model/Miner.lean), the model the driver `drv_c20` executes against the
+real executors. They hold for every `Cfg` (key hash, JSON codec) — the driver's instance is SHA-256 +
+the `GetMinerInfo` JSON. Clauses that are false of the code as it is are stated in full as
+`FullStatement…`, refuted by `…_counterexample` (the witnesses are replayed on the implementation by
+the searcher, see known-findings.txt) and proved under the restriction that avoids the defect as
+`…_partial`.
+-/
 namespace Rangers.Props.C20
 open Rangers Rangers.Miner
 
-theorem get_set_same (s : Store) (k v : Bytes) : (s.set k v).get k = v := by
-  simp [Store.get, Store.set, List.lookup]
+/-- States the node can be in: an empty registry with arbitrary balances, then any operations. -/
+def Reachable (cfg : Cfg) (st : State) : Prop :=
+  ∃ h bal ops, (∀ o ∈ ops, OpOK cfg o) ∧ st = run cfg { State.empty h with bal := bal } ops
+
+/-! ## a rejected miner transaction changes nothing but the fee -/
+
+/-- Full strength, every state, every transaction, every codec: a transaction that is not accepted
+    either leaves the state untouched (`skip:nofee`) or leaves exactly the fee-charged state —
+    including `context["refund"]`, which lives outside the journal. -/
+theorem rejected_changes_only_fee (cfg : Cfg) (st : State) (tx : Tx) (h : (runTx cfg st tx).1 ≠ "ok") :
+    (runTx cfg st tx).2 = st ∨ processFee st tx.src = some (runTx cfg st tx).2 := by
+  unfold runTx at h ⊢
+  cases hf : processFee st tx.src with
+  | none => left; rfl
+  | some st1 =>
+    right
+    simp only [hf] at h ⊢
+    by_cases hok : (execute cfg st1 tx).1 = "ok"
+    · simp only [hok, if_true] at h; exact absurd rfl h
+    · simp only [hok, if_false]
+      rw [execute_fail cfg st1 tx hok]
+
+/-- What "the fee" is: only balances move, `fee` from the payer to the fee account. -/
+theorem fee_moves_only_fee (st st1 : State) (src : Bytes) (h : processFee st src = some st1) :
+    st1.live = st.live ∧ st1.trie = st.trie ∧ st1.pending = st.pending ∧ st1.escrow = st.escrow ∧
+      st1.code = st.code ∧ st1.height = st.height ∧ fee ≤ st.balOf (feePayer src) ∧
+      (∀ a, a ≠ feeAccount → st1.balOf a = if a = feePayer src then st.balOf a - fee else st.balOf a) ∧
+      st1.balOf feeAccount = (if feeAccount = feePayer src then st.balOf feeAccount - fee else st.balOf feeAccount) + fee := by
+  have hl := processFee_live st st1 src h
+  refine ⟨hl.1, hl.2.1, hl.2.2.1, hl.2.2.2.1, hl.2.2.2.2.1, hl.2.2.2.2.2, ?_⟩
+  simp only [processFee] at h
+  split at h
+  · cases h
+  · rename_i hge
+    cases h
+    refine ⟨by omega, ?_, ?_⟩
+    · intro a ha
+      simp only [State.addBal, State.subBal, balOf_setBal, ha, if_false]
+      split <;> simp_all
+    · simp only [State.addBal, State.subBal, balOf_setBal, if_true]
+      split <;> simp_all
+
+example : (runTx toyCfg funded (.refund addr1 [0x11] 5)).1 = "fail:nominer" := by decide
+example : (runTx toyCfg funded (.add [] [0x11] 5)).1 = "skip:nofee" := by decide
+
+/-! ## the three lookup paths agree (at block boundaries) -/
+
+/-- iterator ⇒ by-id: a record the registry iterator yields is what `GetMinerById` returns for its id. -/
+theorem lookup_agree_partial_iter_id (cfg : Cfg) (st : State) (d : DbId) (m : Miner)
+    (hf : Flushed st) (hr : RecKeyed cfg st) (hm : m ∈ iter cfg st d) :
+    getMinerById cfg st d m.id = some m :=
+  iter_to_id cfg st d m hf hr hm
+
+/-- by-id ⇒ iterator. -/
+theorem lookup_agree_partial_id_iter (cfg : Cfg) (st : State) (d : DbId) (id : Bytes) (m : Miner)
+    (hf : Flushed st) (hr : RecKeyed cfg st) (hm : getMinerById cfg st d id = some m) :
+    m ∈ iter cfg st d ∧ m.id = id := by
+  refine ⟨id_to_iter cfg st d id m hf hr hm, ?_⟩
+  obtain ⟨hv, info, hdec, rfl⟩ := (getMinerById_some cfg st d id m).mp hm
+  simp [readMiner, (hr d id info hv hdec).1]
+
+/-- by-account ⇒ by-id: the id `GetMinerIdByAccount` returns names a record carrying that account. -/
+theorem lookup_agree_partial_account_id (cfg : Cfg) (st : State) (a id : Bytes)
+    (hf : Flushed st) (hr : RecKeyed cfg st) (h : byAccount cfg st a = some id) :
+    ∃ d m, (d = .val ∨ d = .prop) ∧ getMinerById cfg st d id = some m ∧ m.account = a := by
+  obtain ⟨m, hmem, hacc, hid⟩ := byAccount_some cfg st a id h
+  rcases hmem with hmem | hmem
+  · exact ⟨.val, m, Or.inl rfl, hid ▸ iter_to_id cfg st .val m hf hr hmem, hacc⟩
+  · exact ⟨.prop, m, Or.inr rfl, hid ▸ iter_to_id cfg st .prop m hf hr hmem, hacc⟩
+
+/-- by-id ⇒ by-account: the account of a registered miner is found by `GetMinerIdByAccount`. -/
+theorem lookup_agree_partial_id_account (cfg : Cfg) (st : State) (d : DbId) (id : Bytes) (m : Miner)
+    (hd : d = .val ∨ d = .prop) (hf : Flushed st) (hr : RecKeyed cfg st) (hm : getMinerById cfg st d id = some m) :
+    (byAccount cfg st m.account).isSome := by
+  have := id_to_iter cfg st d id m hf hr hm
+  apply byAccount_isSome
+  rcases hd with rfl | rfl
+  · exact Or.inl this
+  · exact Or.inr this
+
+/-- The hypotheses of the four theorems above hold in every reachable state right after a block end
+    (codec assumptions: decode∘encode keeps the id; stake/status bytes and the accounts used are not
+    record encodings). -/
+theorem lookup_hypotheses_reachable (cfg : Cfg) (st : State) (n : Nat) (hc : CodecId cfg) (hraw : RawOK cfg)
+    (hs : Reachable cfg st) : Flushed (endBlock st n) ∧ RecKeyed cfg (endBlock st n) := by
+  obtain ⟨h, bal, ops, hok, rfl⟩ := hs
+  refine ⟨endBlock_flushed _ _, recKeyed_endBlock cfg _ n ?_⟩
+  exact recKeyed_run cfg _ ops hc hraw hok (recKeyed_empty cfg _ (fun _ => rfl))
+
+def tApply11 : Tx := .apply addr1 [0x11] 0 400 [] [1] [1]
+def tApply22 : Tx := .apply addr1 [0x22] 0 400 [] [1] [1]
+
+/-- Non-vacuity: a reachable state with a registered miner. -/
+example : (getMinerById toyCfg (run toyCfg funded [.tx tApply11, .endBlock 101]) .val [0x11]).isSome = true := by decide
+example : Reachable toyCfg (run toyCfg funded [.tx tApply11]) :=
+  ⟨100, _, [.tx tApply11], by intro o ho; simp at ho; subst ho; exact ⟨by decide, by decide⟩, rfl⟩
+
+/-- The clause as stated: in *every* reachable state the by-id and iterator views coincide. -/
+def FullStatementLookup : Prop :=
+  ∀ cfg st, CodecId cfg → RawOK cfg → Reachable cfg st →
+    ∀ d id m, getMinerById cfg st d id = some m → m ∈ iter cfg st d
+
+/-- False of the code: inside a block the iterator (storage trie) does not see the block's own writes. -/
+theorem lookup_agree_counterexample : ¬ FullStatementLookup := by
+  intro h
+  have hr : Reachable toyCfg (run toyCfg funded [.tx tApply11]) :=
+    ⟨100, _, [.tx tApply11], by intro o ho; simp at ho; subst ho; exact ⟨by decide, by decide⟩, rfl⟩
+  have hm : ∃ m, getMinerById toyCfg (run toyCfg funded [.tx tApply11]) .val [0x11] = some m :=
+    Option.isSome_iff_exists.mp (by decide)
+  obtain ⟨m, hm⟩ := hm
+  have := h toyCfg _ toy_codecId toy_rawOK hr .val [0x11] m hm
+  have he : iter toyCfg (run toyCfg funded [.tx tApply11]) .val = [] := by decide
+  rw [he] at this
+  cases this
 
 end Rangers.Props.C20
